@@ -205,13 +205,11 @@ class C15:
         return None
 
     def dropped(self, schema, mk, flags, kind="list"):
-        """skip the annotation check: deprecated option (annotation may go with its values), bare value of a list"""
+        """skip the annotation check: deprecated option (annotation may go with its values)"""
         d = self.decl_of(schema, mk, flags)
         if d is None:
             return not (mk["flags"] & 8192)          # free-form key: a scalar string
         if d["f"] & F_DEPRECATED:
-            return True
-        if kind == "scalar-or-bare" and (d["f"] & F_LIST):
             return True
         return False
 
